@@ -237,7 +237,6 @@ pub fn drive(args: &[String]) {
             3 => 64 - q,
             _ => 1 + rng.below(8) as usize,
         };
-        let cap = 1u64 << q;
         // hasher: identity, mix, or collision-forcing
         let bh = match rng.below(4) {
             0 => CtlBH::identity(),
@@ -245,13 +244,24 @@ pub fn drive(args: &[String]) {
             2 => CtlBH::collide(rng.next(), (q + r) as u32),
             _ => CtlBH::collide(rng.next(), (q + r).min(q + 2) as u32),
         };
+        // the first scenarios pin the extreme widths (q + r = 64 and 63, one-bit remainder) with boundary hash values
+        // (identity hasher: the key IS the hash)
+        let (q, r, bh) = match sci {
+            0 => (1usize, 63usize, CtlBH::identity()),
+            1 => (2, 61, CtlBH::identity()),
+            2 => (3, 61, CtlBH::identity()),
+            3 => (2, 1, CtlBH::identity()),
+            _ => (q, r, bh),
+        };
+        let cap = 1u64 << q;
         // tracked keys: 12..20, drawn so that collisions (same quotient, same fingerprint) happen
         let nkeys = (12 + rng.below(9)).min(4 * cap + 8) as usize;
-        let mut keys: Vec<u64> = vec![];
+        let mut keys: Vec<u64> = if sci < 4 { vec![u64::MAX, u64::MAX - 1, 1 << 63, (1 << 63) - 1, (1 << 62) + 5, 0, 1, 2] } else { vec![] };
+        let nkeys = nkeys.max(keys.len() + 2);
         while keys.len() < nkeys {
             let k = match rng.below(4) {
                 0 => rng.below(cap << r.min(8)),                               // small fingerprints
-                1 => rng.next(),                                               // anything
+                1 => if rng.chance(1, 3) { boundary_key(&mut rng) } else { rng.next() },   // anything, boundary hash values included
                 2 if !keys.is_empty() => {
                     // same fingerprint as an existing key, different ignored bits (identity hasher)
                     let b = keys[rng.below(keys.len() as u64) as usize];
